@@ -19,9 +19,14 @@
      EOFError (a truncated spill file);
    * os.remove failing with ENOENT means the file is gone (somebody else
      removed it); with another errno the file stays.
-   * a gzip handle that becomes unreachable (the generator / iterator that
-     owns it is dropped: exhaustion, exception, abandonment) is closed by
-     CPython's reference counting: `drop_iter`.  Not a fault point.
+   * Sorter.__iter__ registers its _MergingIterator in self._merging and
+     closes it in a finally clause; Sorter.close() closes every registered
+     one first; closing a merging iterator attempts every reader.
+     Reference counting is only relied on for the readers of a
+     _MergingIterator whose constructor raised.
+     Abandoning an iteration is generator.close() (a generator that is
+     merely dropped runs the same cleanup in its finalizer, where Python
+     ignores exceptions).
 
    Descriptors and files are numbered from 0 upwards; number 0 is a
    legitimate descriptor (it is what mkstemp returns to a process without a
@@ -206,8 +211,6 @@ Section World.
         end
     end.
 
-  (* reference counting closes the read handles of a dropped iterator *)
-  Definition drop_iter (w : world) : world := set_rh w [].
 
   (* ---------- Sorter ---------- *)
   Record wsorter := mkWSorter {
@@ -216,19 +219,30 @@ Section World.
     wstash : list entry;               (* _stash[:_objects_in_memory] *)
     wpaths : list nat;                 (* _paths *)
     wfds : list (option nat);          (* _fds (None = already closed) *)
-    tainted : bool
+    tainted : bool;
+    (* _merging: the _MergingIterators of the generators the caller still
+       holds; each is the list of the read handles of its cursors whose
+       _closed flag is still False.  (A merging iterator whose close() has run
+       has no such cursor left, whether it failed or not: it is left out.) *)
+    wmerging : list (list nat)
   }.
 
   Definition wnew (c : nat) (al : bool) : wsorter :=
-    {| wcap := c; walways := al; wstash := []; wpaths := []; wfds := []; tainted := false |}.
+    {| wcap := c; walways := al; wstash := []; wpaths := []; wfds := []; tainted := false;
+       wmerging := [] |}.
 
   Definition ws_stash (s : wsorter) (st : list entry) : wsorter :=
-    {| wcap := wcap s; walways := walways s; wstash := st; wpaths := wpaths s; wfds := wfds s; tainted := tainted s |}.
+    {| wcap := wcap s; walways := walways s; wstash := st; wpaths := wpaths s; wfds := wfds s; tainted := tainted s;
+       wmerging := wmerging s |}.
   Definition ws_register (s : wsorter) (id : nat) : wsorter :=
     {| wcap := wcap s; walways := walways s; wstash := wstash s; wpaths := wpaths s ++ [id];
-       wfds := wfds s ++ [Some id]; tainted := tainted s |}.
+       wfds := wfds s ++ [Some id]; tainted := tainted s; wmerging := wmerging s |}.
   Definition ws_taint (s : wsorter) : wsorter :=
-    {| wcap := wcap s; walways := walways s; wstash := wstash s; wpaths := wpaths s; wfds := wfds s; tainted := true |}.
+    {| wcap := wcap s; walways := walways s; wstash := wstash s; wpaths := wpaths s; wfds := wfds s; tainted := true;
+       wmerging := wmerging s |}.
+  Definition ws_merging (s : wsorter) (m : list (list nat)) : wsorter :=
+    {| wcap := wcap s; walways := walways s; wstash := wstash s; wpaths := wpaths s; wfds := wfds s; tainted := tainted s;
+       wmerging := m |}.
 
   (* for i in range(n): write length, write data, stash[i] = None *)
   Fixpoint write_all (id : nat) (ds : list D) (w : world) : option exn * world :=
@@ -349,28 +363,46 @@ Section World.
         end
     end.
 
-  (* `pulls` calls of _MergingIterator.__next__ (the generator is abandoned
-     after the last one unless it ended before).  When the heap is empty
-     __next__ calls close(), which finds every cursor closed already (each
-     closed itself at end of file), and raises StopIteration. *)
-  Fixpoint w_merge (pulls : nat) (heap : list wcursor) (w : world) : (list A * option exn) * world :=
+  (* how `pulls` calls of _MergingIterator.__next__ end *)
+  Inductive mstatus := MExhausted | MSuspended | MRaised (e : exn).
+
+  (* `pulls` calls of _MergingIterator.__next__: the records returned, how it
+     ended, and the read handles of the cursors in _iterators whose _closed
+     flag is still False at that point (`opn`, kept apart from the heap: it is
+     what close() goes through).  A cursor that reaches the end of its file
+     closes itself; one whose read, decode, key or end-of-file close raised
+     has not been flagged closed. *)
+  Fixpoint w_merge (pulls : nat) (heap : list wcursor) (opn : list nat) (w : world)
+    : (list A * mstatus * list nat) * world :=
     match pulls with
-    | O => (([], None), w)
+    | O => (([], MSuspended, opn), w)
     | S p =>
         match heap with
-        | [] => (([], None), w)
+        | [] => (([], MExhausted, opn), w)           (* __next__: self.close(); raise StopIteration *)
         | _ :: _ =>
             match pick_min wcursor lt_wcursor heap with
-            | None => (([], Some AssertionError), w)        (* oracle refused; unreachable *)
+            | None => (([], MRaised AssertionError, opn), w)        (* oracle refused; unreachable *)
             | Some (c, rest) =>
                 match w_advance (wh c) (wrest c) w with
-                | (Raise e, w1) => (([], Some e), w1)
+                | (Raise e, w1) => (([], MRaised e, opn), w1)
                 | (Ok None, w1) =>
-                    let '((ys, e), w2) := w_merge p rest w1 in ((wval c :: ys, e), w2)
+                    let '((ys, st, hs), w2) := w_merge p rest (remove_nat (wh c) opn) w1 in ((wval c :: ys, st, hs), w2)
                 | (Ok (Some c'), w1) =>
-                    let '((ys, e), w2) := w_merge p (c' :: rest) w1 in ((wval c :: ys, e), w2)
+                    let '((ys, st, hs), w2) := w_merge p (c' :: rest) opn w1 in ((wval c :: ys, st, hs), w2)
                 end
             end
+        end
+    end.
+
+  (* _MergingIterator.close(): every reader is attempted, the first OSError is
+     raised at the end; afterwards the iterator has no cursor left *)
+  Fixpoint w_mclose (hs : list nat) (w : world) (err : option exn) : option exn * world :=
+    match hs with
+    | [] => (err, w)
+    | h :: r =>
+        match w_close_r h w with
+        | (Raise e, w1) => w_mclose r w1 (match err with Some _ => err | None => Some e end)
+        | (Ok _, w1) => w_mclose r w1 err
         end
     end.
 
@@ -389,9 +421,21 @@ Section World.
         end
     end.
 
-  (* Sorter.__iter__ pulled `pulls` times and then dropped.  pulls = 0: the
-     generator never starts, nothing happens. *)
-  Definition w_iter (s : wsorter) (pulls : nat) (w : world) : (list A * option exn) * wsorter * world :=
+  (* the `finally: m_iter.close(); unregister` of Sorter.__iter__, entered
+     with exception `e` pending (None: GeneratorExit / normal end): an
+     exception of the cleanup replaces e *)
+  Definition w_finally (s : wsorter) (ys : list A) (e : option exn) (hs : list nat) (w : world)
+    : (list A * option exn) * wsorter * world :=
+    match w_mclose hs w None with
+    | (None, w1) => ((ys, e), s, w1)
+    | (Some e', w1) => ((ys, Some e'), s, w1)
+    end.
+
+  (* Sorter.__iter__: next() called `pulls` times; then the generator is
+     either kept by the caller (keep) or closed (generator.close()).
+     pulls = 0: the generator never starts, nothing happens. *)
+  Definition w_iter (s : wsorter) (pulls : nat) (keep : bool) (w : world)
+    : (list A * option exn) * wsorter * world :=
     match pulls with
     | O => (([], None), s, w)
     | S _ =>
@@ -400,9 +444,18 @@ Section World.
           | (Some e, s1, w1) => (([], Some e), s1, w1)
           | (None, s1, w1) =>
               match w_cursors (wpaths s1) w1 with
-              | (Raise e, w2) => (([], Some e), s1, drop_iter w2)
+              | (Raise e, w2) =>
+                  (* _MergingIterator.__init__ raised: the readers it had opened are unreachable *)
+                  (([], Some e), s1, set_rh w2 (rhandles w1))
               | (Ok heap, w2) =>
-                  let '(r, w3) := w_merge pulls heap w2 in (r, s1, drop_iter w3)
+                  let '((ys, st, hs), w3) := w_merge pulls heap (map wh heap) w2 in
+                  match st with
+                  | MExhausted => w_finally s1 ys None hs w3     (* every cursor has closed itself: hs = [] *)
+                  | MRaised e => w_finally s1 ys (Some e) hs w3
+                  | MSuspended =>
+                      if keep then ((ys, None), ws_merging s1 (wmerging s1 ++ [hs]), w3)
+                      else w_finally s1 ys None hs w3
+                  end
               end
           end
         else
@@ -437,11 +490,19 @@ Section World.
     | _, _ => (err, rem, w)
     end.
 
+  (* for m_iter in self._merging: try: m_iter.close() except OSError: error = error or exception *)
+  Fixpoint w_close_merging (ms : list (list nat)) (w : world) (err : option exn) : option exn * world :=
+    match ms with
+    | [] => (err, w)
+    | hs :: r => let '(err1, w1) := w_mclose hs w err in w_close_merging r w1 err1
+    end.
+
   Definition w_close (s : wsorter) (w : world) : option exn * wsorter * world :=
-    let '(err, rem, w1) := w_close_loop (wpaths s) (wfds s) w None [] in
+    let '(err0, w0) := w_close_merging (wmerging s) w None in
+    let '(err, rem, w1) := w_close_loop (wpaths s) (wfds s) w0 err0 [] in
     (err,
      {| wcap := wcap s; walways := walways s; wstash := wstash s; wpaths := rem;
-        wfds := map (fun _ => None) rem; tainted := tainted s |},
+        wfds := map (fun _ => None) rem; tainted := tainted s; wmerging := [] |},
      w1).
 
   (* close() until it returns normally, at most n times *)
@@ -457,7 +518,7 @@ Section World.
     end.
 
   (* ---------- histories of a Sorter ---------- *)
-  Inductive op := OpAdd (x : A) | OpIter (pulls : nat) | OpClose.
+  Inductive op := OpAdd (x : A) | OpIter (pulls : nat) (keep : bool) | OpClose.
 
   Record step_obs := mkObs {
     o_out : outcome;
@@ -474,9 +535,9 @@ Section World.
     | OpAdd x =>
         if tainted s then (OUnmodelled, [], s, w)
         else let '(e, s1, w1) := w_add s x w in (out_of e, [], s1, w1)
-    | OpIter p =>
+    | OpIter p keep =>
         if tainted s then (OUnmodelled, [], s, w)
-        else let '((ys, e), s1, w1) := w_iter s p w in (out_of e, ys, s1, w1)
+        else let '((ys, e), s1, w1) := w_iter s p keep w in (out_of e, ys, s1, w1)
     | OpClose =>
         let '(e, s1, w1) := w_close s w in (out_of e, [], s1, w1)
     end.
@@ -498,6 +559,7 @@ Section World.
   Definition w_workload (c : nat) (al : bool) (stop : bool) (ops : list op) (f : option (nat * bool))
     : list step_obs * list (option exn) * world :=
     let '(obs, s, w) := w_run stop (wnew c al) ops (world0 f) in
+    (* the caller may still hold generators when it closes the sorter *)
     let '(cl, _, w') := w_close_until 3 s w in
     (obs, cl, w').
 
@@ -521,7 +583,7 @@ Section World.
   Definition wr_close (wr : wwriter) (w : world) : outcome * wwriter * world :=
     if tainted (ws wr) then (OUnmodelled, wr, w)
     else
-      let '((ys, e), s1, w1) := w_iter (ws wr) (S (total_items (ws wr) w)) w in
+      let '((ys, e), s1, w1) := w_iter (ws wr) (S (total_items (ws wr) w)) false w in
       let out1 := wout wr ++ ys in                    (* records written before an exception stay written *)
       match e with
       | Some x => (ORaise x, {| ws := s1; wout := out1; whclosed := whclosed wr |}, w1)
